@@ -178,6 +178,20 @@ func (w *world) runTask(t sim.Task) {
 				d = 0
 			}
 			w.doCall(fmt.Sprintf("%s.%d", t.Name, i), d, time.Duration(op.E), 0)
+		case "bulkcall":
+			// op.N futures in one go, due at op.D, op.D+op.E, ... after now (a big population:
+			// what the package does per future it may do differently per thousand)
+			for k := int64(0); k < op.N; k++ {
+				w.doCall(fmt.Sprintf("%s.%d#%d", t.Name, i, k), time.Duration(op.D+k*op.E), 0, 0)
+			}
+			e.Probe("bulk_population_scheduled")
+		case "bulkcancel":
+			// Cancel for every op.E-th future of the population op.S (again, if cancelled before)
+			for k := int64(0); k < op.N; k += op.E {
+				if f := w.futs[fmt.Sprintf("%s#%d", op.S, k)]; f != nil && f.created && f.f != nil {
+					w.doCancel(f)
+				}
+			}
 		case "cancel":
 			f := w.futs[op.S]
 			if f == nil || !f.created || f.f == nil {
@@ -407,6 +421,29 @@ func Generate(r *sim.Rng, prop, tier string, idx int) *sim.Case {
 	nt := 1 + r.Intn(4)
 	if tier == "thorough" && r.Chance(1, 4) {
 		nt = 1 + r.Intn(6)
+	}
+	if c.Mode == "c12" && r.Chance(1, 40) {
+		// a big population: more than a thousand futures pending at once, drained, and the old
+		// futures cancelled (again) while a few new ones are pending
+		n := int64(sim.Pick(r, 1100, 1500, 2100, 2600, 4200))
+		c.Sched.MaxSteps = 3000000
+		c.Knobs["big_population"] = n
+		task := sim.Task{Name: "t0"}
+		step := int64(sim.Pick(r, 2*time.Microsecond, 5*time.Microsecond, 20*time.Microsecond))
+		task.Ops = append(task.Ops, sim.Op{K: "bulkcall", N: n, D: int64(time.Millisecond), E: step})
+		if r.Chance(1, 2) {
+			// part of it is cancelled while pending
+			task.Ops = append(task.Ops, sim.Op{K: "bulkcancel", S: "t0.0", N: n, E: int64(sim.Pick(r, 2, 3, 7, 50))})
+		}
+		task.Ops = append(task.Ops, sim.Op{K: "sleep", D: int64(time.Millisecond) + n*step + int64(sim.Pick(r, -n*step/2, 0, int64(50*time.Millisecond)))})
+		nv := 3 + r.Intn(40)
+		for k := 0; k < nv; k++ {
+			task.Ops = append(task.Ops, sim.Op{K: "call", D: int64(sim.Pick(r, 50*time.Millisecond, 200*time.Millisecond, time.Second)) + int64(k)*int64(time.Microsecond)})
+		}
+		task.Ops = append(task.Ops, sim.Op{K: "bulkcancel", S: "t0.0", N: n, E: int64(sim.Pick(r, 1, 1, 2, 5))})
+		task.Ops = append(task.Ops, sim.Op{K: "sleep", D: int64(2 * time.Second)})
+		c.Tasks = append(c.Tasks, task)
+		return c
 	}
 	if c.Mode == "c12" {
 		delays := []time.Duration{time.Duration(1<<63 - 1), 250 * 365 * 24 * time.Hour, -time.Millisecond, -1, time.Duration(-1 << 63), 0, 0, time.Microsecond, time.Millisecond, time.Millisecond, 5 * time.Millisecond, 5 * time.Millisecond, 50 * time.Millisecond, time.Second, time.Minute, 10 * time.Minute}
